@@ -1,6 +1,7 @@
 package c18
 
 import (
+	"encoding/json"
 	"fmt"
 	"io"
 	"math"
@@ -10,6 +11,8 @@ import (
 	"time"
 
 	"verifharness/hx"
+
+	"github.com/evstack/ev-node/pkg/genesis"
 )
 
 // value pools per kind (canonical renderings)
@@ -370,6 +373,82 @@ func (g *gen) encodingClasses() {
 		op("c", fmt.Sprintf("1700000000.%d", []int{0, 1, 10, 120000000, 999999999, 100, 123456789, 500000}[n]), 0, 0, pa)
 	}
 	op("c", "1700000000.0", 0, 0, "nil")
+}
+
+// rawFiles: genesis FILES as bytes (`gfile`): a document exactly as Save lays it out, followed by
+// something - white space only (must still load), a stray brace, a second document with other
+// values, text, a NUL, a comma - or cut short; also through a path that is re-used.
+// "An invalid genesis is refused": a file with anything but white space after the document is not JSON.
+func (g *gen) rawFiles(tier string) {
+	r, w := g.r, g.w
+	doc := func(cid string, ih uint64, sec int64, nsec int64, offMin int, pa []byte) []byte {
+		t := time.Unix(sec, nsec).In(time.FixedZone("op", offMin*60))
+		b, err := json.MarshalIndent(genesis.NewGenesis(cid, ih, t, pa), "", "  ")
+		if err != nil {
+			return []byte("{}")
+		}
+		return b
+	}
+	rnd := func() []byte {
+		cid := []string{"c", "chain-1", "q\"uote", "ünï", "a b", "<x>"}[r.Intn(6)]
+		pa := r.Bytes([]int{0, 1, 20, 32}[r.Intn(4)])
+		if r.Chance(10) {
+			pa = nil
+		}
+		ih := uint64(1 + r.Intn(1000))
+		if r.Chance(10) {
+			ih = 0 // a document Validate refuses
+		}
+		return doc(cid, ih, 1700000000+int64(r.Intn(1000000)), []int64{0, 5, 120000000}[r.Intn(3)], []int{0, 60, -330}[r.Intn(3)], pa)
+	}
+	emit := func(at int, b []byte) {
+		if at > 0 {
+			fmt.Fprintf(w, "gfile at=%d hex=%s\n", at, hx.Hex(b))
+		} else {
+			fmt.Fprintf(w, "gfile hex=%s\n", hx.Hex(b))
+		}
+	}
+	a := doc("first-chain", 1, 1700000000, 0, 0, []byte{1, 2, 3})
+	b := doc("second-chain", 99, 1800000000, 5, 60, []byte{9})
+	suffixes := [][]byte{nil, []byte("\n"), []byte(" \t\r\n\n  "), []byte("}"), []byte("\n}"), b, append([]byte("\n"), b...), []byte("trailing text"), []byte("\n// comment"),
+		{0}, []byte(","), []byte("null"), []byte("[]"), []byte("{"), []byte("\n \t x"), []byte("\u00a0"), []byte("\"s\""), []byte("0"), a}
+	fmt.Fprintln(w, "reset")
+	for _, sfx := range suffixes {
+		emit(0, append(append([]byte{}, a...), sfx...))
+	}
+	// cut short, empty, white space only, leading white space (json accepts it; the layout parser of the model does not: not generated)
+	for _, n := range []int{0, 1, len(a) / 2, len(a) - 2, len(a) - 1} {
+		emit(0, a[:n])
+	}
+	emit(0, []byte(" \n"))
+	// through one path: valid, then the same with a tail, then valid again, a Save over it, then a tail again
+	fmt.Fprintln(w, "reset")
+	emit(1, a)
+	emit(1, append(append([]byte{}, a...), '}'))
+	fmt.Fprintln(w, "gload at=1")
+	emit(1, b)
+	fmt.Fprintln(w, "gload at=1")
+	g.genesisAt(1, "saved", 3, "1700000000.0", 0, hx.Hex(r.Bytes(4)))
+	emit(1, append(append([]byte{}, b...), a...))
+	fmt.Fprintln(w, "gload at=1")
+	n := 12
+	if tier == "thorough" {
+		n = 150
+	}
+	for i := 0; i < n; i++ {
+		if i%15 == 0 {
+			fmt.Fprintln(w, "reset")
+		}
+		d := rnd()
+		sfx := suffixes[r.Intn(len(suffixes))]
+		if r.Chance(20) {
+			sfx = rnd()
+		}
+		if r.Chance(15) {
+			sfx = append([]byte(strings.Repeat([]string{" ", "\n", "\t", "\r"}[r.Intn(4)], 1+r.Intn(3))), sfx...)
+		}
+		emit([]int{0, 0, 1, 2}[r.Intn(4)], append(d, sfx...))
+	}
 }
 
 // samePath: genesis documents of different encoded lengths saved to the SAME path - longer first,
@@ -833,6 +912,7 @@ func Gen(r *hx.Rng, tier string, w io.Writer) {
 	g.genesisOp("", 0, "zero", 0, "nil")
 	g.genesisOp("c", math.MaxUint64, "0.0", 840, a32)
 	g.encodingClasses()
+	g.rawFiles(tier)
 	g.samePath()
 	for i := 0; i < nGenesis; i++ {
 		if i%20 == 0 {
